@@ -224,5 +224,29 @@ func conform(sh *explore.Shard, prop string, owned []string, sc *gen.Scenario) {
 		if res2.Exit != res.Exit || !bytes.Equal(res2.Stdout, res.Stdout) {
 			herr("CLI output differs between real git and fakegit: exit %d/%d\nreal: %s\nfake: %s\nstderr: %s", res.Exit, res2.Exit, res.Stdout, res2.Stdout, res2.Stderr)
 		}
+		// 6. the shim's fidelity for planned orders: the real binary (real go-pipe,
+		// real exec) with fakegit executing a permuted listing must report the
+		// same numbers as the oracle
+		if l, err := modelgit.DefaultListing(sc.Repo, roots); err == nil && sh.Index()%2 == 0 {
+			fs.SetPlan(&modelgit.Plan{GitDir: gd, ListOrder: reverseNonCommits(sc.Repo, l), Chunk: 13, FlushEvery: 1})
+			res3 := cli.Run(dir, cli.FakeGitDir, fs.Env(), 60*time.Second, args...)
+			sh.C.Validated++
+			sh.C.Add("cli_fakegit_permuted_runs", 1)
+			if res3.Exit != 0 {
+				sh.C.Violate(explore.Violation{Property: prop, Class: "cli-error", Msg: fmt.Sprintf("git-sizer with the model git under a permuted listing failed (exit %d): %s", res3.Exit, res3.Stderr),
+					Case: caseJSON(sh.Index(), map[string]any{"desc": sc.Desc, "args": args}), Detail: sc.Repo.Describe()})
+			} else if n3, _, err := parseV1(res3.Stdout); err == nil {
+				var d3 []string
+				for _, k := range owned {
+					if n3[k] != want[k] {
+						d3 = append(d3, fmt.Sprintf("%s: reported %d, true %d", k, n3[k], want[k]))
+					}
+				}
+				if len(d3) > 0 {
+					sh.C.Violate(explore.Violation{Property: prop, Class: "cli-mismatch", Msg: "real CLI with the model git under a permuted listing: " + strings.Join(d3, "; "),
+						Case: caseJSON(sh.Index(), map[string]any{"desc": sc.Desc, "args": args}), Detail: sc.Repo.Describe()})
+				}
+			}
+		}
 	}
 }
